@@ -6,6 +6,7 @@
 // State key: (contents, capacity, data()==nullptr) of A and B (+ mirror contents).
 #pragma once
 #include "mc.hpp"
+#include "single_pass.hpp"
 #include "tracked.hpp"
 #include <algorithm>
 #include <iterator>
@@ -91,6 +92,7 @@ namespace c02
         K_EMPLACE_LVALUE_ELEM,      // emplace(pos, t)
         K_INSERT_SORTED_RVALUE,     // insert_sorted(T(v))
         K_CTOR_RANGE_MOVE_ITER,     // vector(std::make_move_iterator(first), std::make_move_iterator(last))
+        K_CTOR_RANGE_INPUT_ITER,    // vector(single-pass input iterator pair), see single_pass.hpp
         K_NKINDS
     };
     inline const char *kname(int k)
@@ -103,7 +105,7 @@ namespace c02
                                   "push_back_own_element", "emplace_back_own_element", "insert_own_element", "emplace_own_element", "at_out_of_range",
                                   "push_back_rvalue", "push_back_moved", "emplace_back_rvalue_element", "emplace_back_lvalue_element", "insert_rvalue",
                                   "insert_moved", "insert_index_rvalue", "emplace_rvalue_element", "emplace_lvalue_element", "insert_sorted_rvalue",
-                                  "ctor_range_move_iterator"};
+                                  "ctor_range_move_iterator", "ctor_range_input_iterator"};
         return n[k];
     }
 
@@ -251,6 +253,17 @@ namespace c02
                             ops.push_back({K_CTOR_RANGE_MOVE_ITER, x, i, 0, 0});
                     }
             }
+            for (int x = 0; x < 2; x++) // appended later still
+                if (Tr::has_list_range)
+                    for (int i = 0; i < (int)lists.size(); i++)
+                    {
+                        bool cyc = true;
+                        for (size_t j = 1; j < lists[i].size(); j++)
+                            if (lists[i][j] != (lists[i][j - 1] + 1) % bx.NV)
+                                cyc = false;
+                        if (cyc)
+                            ops.push_back({K_CTOR_RANGE_INPUT_ITER, x, i, 0, 0});
+                    }
             slot = t;
             return slot;
         }
@@ -309,6 +322,7 @@ namespace c02
             case K_EMPLACE_LVALUE_ELEM:
                 return mc::fmt("T t(%d); %s.emplace(begin+%d, t)", p.b, X, p.a);
             case K_CTOR_RANGE_MOVE_ITER:
+            case K_CTOR_RANGE_INPUT_ITER:
                 return mc::fmt("%s' = %s(%s); old %s destroyed", X, kname(p.kind), vstr(lists[p.a]).c_str(), X);
             case K_INSERT:
             case K_EMPLACE:
@@ -718,13 +732,29 @@ namespace c02
             case K_CTOR_RANGE_PTR:
             case K_CTOR_RANGE_LIST:
             case K_CTOR_RANGE_MOVE_ITER:
+            case K_CTOR_RANGE_INPUT_ITER:
             {
                 const auto &l = lists[p.a];
                 ctx(kname(p.kind), l.empty() ? "empty" : "nonempty");
                 if (l.size() >= 2)
                     mc::nontrivial();
                 Vec *nv;
-                if (p.kind == K_CTOR_RANGE_MOVE_ITER)
+                if (p.kind == K_CTOR_RANGE_INPUT_ITER)
+                {
+                    if constexpr (Tr::has_list_range)
+                    {
+                        sp::Source src; // single pass: whatever walks the range consumes it
+                        src.values = l;
+                        sp::InputIt<T> first, last;
+                        first.src = &src;
+                        nv = new Vec(first, last);
+                        if (src.misuse)
+                            bad(kname(p.kind), "iterator_misuse", "the constructor dereferenced or advanced the end iterator of the input range");
+                    }
+                    else
+                        return false;
+                }
+                else if (p.kind == K_CTOR_RANGE_MOVE_ITER)
                 {
                     if constexpr (Tr::has_list_range)
                     {
